@@ -44,7 +44,7 @@ class Ctx:
     def __init__(self):
         self.query_timeout_ms = 120000
         import os as _os
-        self.cross_left = int(_os.environ.get("VERIF_CROSSCHECK") or (25 if _os.environ.get("VERIF_TIER_ACTIVE") == "thorough" else 5))
+        self.cross_left = int(_os.environ.get("VERIF_CROSSCHECK") or (20 if _os.environ.get("VERIF_TIER_ACTIVE") == "thorough" else 3))
         self.deadline = None          # wall-clock budget of the current job (set by the harness); exceeding it is inconclusive
         self.stats = {"queries": 0, "solver_s": 0.0, "sat": 0, "unsat": 0, "unknown": 0,
                       "paths": 0, "forks": 0, "aborted": 0, "sign_shortcuts": 0}
@@ -123,28 +123,17 @@ class Ctx:
         """Second opinion from cvc5 on a sample of the queries z3 decided quickly (thorough tier / VERIF_CROSSCHECK):
         a definite disagreement is a harness error; cvc5 `unknown` / timeout is only counted."""
         self.cross_left -= 1
-        try:
-            import cvc5
-        except ImportError:
-            self.cross_left = 0
-            return
+        import os as _os
+        import subprocess
+        import sys as _sys
         txt = "(set-logic QF_NRA)\n" + solver.to_smt2()
+        root = _os.path.dirname(_os.path.dirname(_os.path.abspath(__file__)))
         try:
-            tm = cvc5.TermManager()
-            sv = cvc5.Solver(tm)
-            sv.setOption("tlimit-per", "8000")
-            ps = cvc5.InputParser(sv)
-            ps.setStringInput(cvc5.InputLanguage.SMT_LIB_2_6, txt, "q")
-            sm = ps.getSymbolManager()
+            pr = subprocess.run([_sys.executable, "-m", "vsym.cvc5ask"], input=txt, capture_output=True, text=True, timeout=25, cwd=root)
+            out = pr.stdout.strip().splitlines()[-1] if pr.returncode == 0 and pr.stdout.strip() else "error"
+        except subprocess.TimeoutExpired:
             out = "unknown"
-            while True:
-                c = ps.nextCommand()
-                if c.isNull():
-                    break
-                res = str(c.invoke(sv, sm)).strip()
-                if res in ("sat", "unsat", "unknown"):
-                    out = res
-        except Exception as e:  # noqa - parser / option differences are not verdicts
+        if out == "error":
             self.stats["cross_error"] = self.stats.get("cross_error", 0) + 1
             return
         self.stats["cross_checked"] = self.stats.get("cross_checked", 0) + 1
